@@ -156,7 +156,7 @@ func runCase(t *testing.T, run *core.Run, name string, idx int, rng *rand.Rand) 
 	ch := w.Ch
 	defer ch.Close()
 	const X, Y = 0, 1
-	blocks := core.Pick(14, 50)
+	blocks := core.Pick(14, 30)
 	fail := func(kind string, h uint64, d map[string]any) {
 		d["case"], d["height"] = name, h
 		run.Violation(kind, "^"+name+"$", d)
@@ -284,7 +284,7 @@ func TestCheck(t *testing.T) {
 	defer run.Finish()
 	run.MinDistinct = 10
 	run.Assume("rollback inside certificate-result transactions (nested chain) is exercised by C20's two-chain runs, not here")
-	n := core.Pick(6, 150)
+	n := core.Pick(6, 80)
 	run.Sharded(n, func(i int) {
 		name := fmt.Sprintf("chain/%d", i)
 		if run.Want(name) {
